@@ -1231,6 +1231,216 @@ func init() {
 			}
 		}})
 
+	register(&Rule{ID: "SNAP.vv", Min: 2, Text: "a snapshot carries the version vector of the document it was taken from: in both backends' CreateSnapshotInfo the vector written into the snapshot row is the document's (InternalDocument.VersionVector(), or its copy) on every path — a freshly made empty vector never reaches the stored value. The vector is not only the garbage collector's: a client that loads the snapshot takes its causal knowledge from it, and every change it makes carries that vector; with an empty one its removals do not cover the content they remove and are skipped on every replica, its own included",
+		Run: func(x *Ctx) {
+			newVV := x.P.FnObj("pkg/document/time.NewVersionVector")
+			if newVV == nil {
+				x.C.Unresolved(x.id(), "time.NewVersionVector")
+				return
+			}
+			n := 0
+			for _, spec := range []string{"server/backend/database/memory.(*DB).CreateSnapshotInfo", "server/backend/database/mongo.(*Client).CreateSnapshotInfo"} {
+				fn := x.fn(spec)
+				if fn == nil {
+					continue
+				}
+				n++
+				bad := ""
+				for _, c := range callsToIn(fn, newVV) {
+					v, ok := c.(*ssa.Call)
+					if !ok {
+						continue
+					}
+					// does the empty vector reach something that is stored or handed on (through phis and local variables)?
+					seen := map[ssa.Value]bool{}
+					var reach func(w ssa.Value, d int) bool
+					reach = func(w ssa.Value, d int) bool {
+						if w == nil || seen[w] || d > 8 || w.Referrers() == nil {
+							return false
+						}
+						seen[w] = true
+						for _, r := range *w.Referrers() {
+							switch t := r.(type) {
+							case *ssa.Phi:
+								if reach(t, d+1) {
+									return true
+								}
+							case *ssa.MakeInterface:
+								if reach(t, d+1) {
+									return true
+								}
+							case *ssa.ChangeType:
+								if reach(t, d+1) {
+									return true
+								}
+							case *ssa.Store:
+								if t.Val != w {
+									continue
+								}
+								if a, isA := t.Addr.(*ssa.Alloc); isA {
+									for _, ar := range *a.Referrers() {
+										if u, isU := ar.(*ssa.UnOp); isU && reach(u, d+1) {
+											return true
+										}
+									}
+									continue
+								}
+								return true
+							case *ssa.MapUpdate:
+								if t.Value == w {
+									return true
+								}
+							case ssa.CallInstruction:
+								return true
+							}
+						}
+						return false
+					}
+					if reach(v, 0) {
+						bad = x.pos(c)
+					}
+				}
+				x.check(bad == "", "func="+prog.FnName(fn)+" stores-the-document's-vector-on-every-path", x.fpos(fn),
+					"the row's vector is the document's", "an empty vector made at "+bad+" can reach the stored snapshot row: whoever loads that snapshot starts without causal knowledge of its content, and its later removals are skipped everywhere")
+			}
+			if n < 2 {
+				x.C.Vacuous(x.id()+" backends", n, 2)
+			}
+		}})
+
+	register(&Rule{ID: "GC.atomic", Min: 1, Text: "the minimum vector handed to a client is not younger than the range it pulled: the minimum over the attached clients' vectors tells a client what it may purge, which is safe only if every change whose author's stored vector went into that minimum is in the range the client receives with it. A peer's request appends its changes before it stores its vector, so the order that guarantees this is: compute the minimum (Database.UpdateMinVersionVector) first, fix the upper end of the pulled range (the push, Database.CreateChangeInfos, whose head bounds the pull) afterwards — or run both under the document's write lock. Requests of different clients share the document lock; with the range fixed first, two complete syncs of a peer in between put a removal under the minimum while the peer's concurrent edit, anchored in the removed node, lies beyond the range: the client purges the node and fails on that edit at every later sync",
+		Run: func(x *Ctx) {
+			p := x.pipe()
+			if !p.ok {
+				return
+			}
+			minVV := p.UpdMinVV
+			pushes := x.callsReaching(p.PushPull, p.CreateCI)
+			mins := x.callsReaching(p.PushPull, minVV)
+			if len(pushes) == 0 || len(mins) == 0 {
+				x.C.Unresolved(x.id(), "calls in PushPull that reach CreateChangeInfos / UpdateMinVersionVector")
+				return
+			}
+			for i, m := range mins {
+				ok := true
+				for _, ps := range pushes {
+					if prog.MayPrecede(ps, m) {
+						ok = false
+					}
+				}
+				if !ok {
+					// under the document's write lock?
+					if held, _ := x.mustHold(m, "doc", "W"); held {
+						ok = true
+					}
+				}
+				x.check(ok, fmt.Sprintf("func=%s minimum#%d computed-before-the-range-is-fixed", prog.FnName(p.PushPull), i+1), x.pos(m),
+					"the minimum vector is computed before the pulled range is fixed (or both under the write lock)",
+					"the upper end of the pulled range is fixed by the push before the minimum version vector is computed, and other clients' requests run in between under the shared document lock: the minimum can cover a removal whose concurrent edit is beyond the range")
+			}
+		}})
+
+	register(&Rule{ID: "A5.map", Min: 4, Text: "a caller's map enters an operation only as a copy: the proxies of package json apply an edit to the editing copy at once and queue an operation that is executed on the document when the updater returns. Wherever a method of package json hands a map to a constructor of package operations, that map is not one of the method's own parameters (nor an element of its variadic parameter) — it went through maps.Clone or was built in the method. With the caller's map in the operation, a caller that reuses one attribute map for two calls and changes it in between sees the first value on Root() while the document, the pending change and every peer get the second",
+		Run: func(x *Ctx) {
+			n := 0
+			cnt := map[string]int{}
+			for _, fn := range x.P.FuncsIn("pkg/document/json") {
+				if len(fn.Blocks) == 0 {
+					continue
+				}
+				for _, c := range prog.CallsIn(fn) {
+					callee := c.Common().StaticCallee()
+					if callee == nil || callee.Pkg == nil || !strings.HasSuffix(callee.Pkg.Pkg.Path(), "/pkg/document/operations") || !strings.HasPrefix(callee.Name(), "New") {
+						continue
+					}
+					for i, a := range c.Common().Args {
+						if _, isMap := a.Type().Underlying().(*types.Map); !isMap {
+							continue
+						}
+						n++
+						cnt[prog.FnName(fn)+callee.Name()]++
+						// the caller's own map: a parameter, or an element loaded from the variadic parameter, reached through phis only
+						callers := false
+						seen := map[ssa.Value]bool{}
+						var walk func(v ssa.Value, d int)
+						walk = func(v ssa.Value, d int) {
+							if v == nil || seen[v] || d > 6 {
+								return
+							}
+							seen[v] = true
+							switch t := v.(type) {
+							case *ssa.Parameter:
+								callers = true
+							case *ssa.Phi:
+								for _, e := range t.Edges {
+									walk(e, d+1)
+								}
+							case *ssa.UnOp:
+								if ia, ok := t.X.(*ssa.IndexAddr); ok {
+									if _, isP := ia.X.(*ssa.Parameter); isP {
+										callers = true
+									}
+								}
+								if al, ok := t.X.(*ssa.Alloc); ok {
+									for _, r := range *al.Referrers() {
+										if st, isSt := r.(*ssa.Store); isSt && st.Addr == ssa.Value(al) {
+											walk(st.Val, d+1)
+										}
+									}
+								}
+							}
+						}
+						walk(a, 0)
+						x.check(!callers, fmt.Sprintf("func=%s call=%s#%d arg%d map-is-a-copy", prog.FnName(fn), callee.Name(), cnt[prog.FnName(fn)+callee.Name()], i), x.pos(c),
+							"the map handed to the operation is not the caller's", "the map handed to "+callee.Name()+" is the caller's own (a parameter of the proxy method): the operation is executed after the updater returns and sees whatever the caller has done to the map since")
+					}
+				}
+			}
+			if n < 4 {
+				x.C.Vacuous(x.id()+" maps handed to operation constructors", n, 4)
+			}
+		}})
+
+	register(&Rule{ID: "STYLE.empty", Min: 3, Text: "what the operation will not do, the proxy does not do: Style.Execute and TreeStyle.Execute apply an operation only when it carries attributes, so in package json a call of the model's Style (crdt.Text.Style, crdt.Tree.Style) with the caller's attribute map is reachable only on an edge where the map was found non-empty (len != 0 / > 0). Applied with an empty map the range is split on the editing copy and not on the document: Root() and the document marshal differently, and an empty change is queued",
+		Run: func(x *Ctx) {
+			n := 0
+			for _, fn := range x.P.FuncsIn("pkg/document/json") {
+				if len(fn.Blocks) == 0 {
+					continue
+				}
+				for _, c := range prog.CallsIn(fn) {
+					callee := c.Common().StaticCallee()
+					if callee == nil || callee.Pkg == nil || !strings.HasSuffix(callee.Pkg.Pkg.Path(), "/"+crdtPkg) || callee.Name() != "Style" {
+						continue
+					}
+					var m ssa.Value
+					for _, a := range c.Common().Args {
+						// the attribute map: map[string]string (the version vector is a map too)
+						if mt, isMap := a.Type().Underlying().(*types.Map); isMap && types.Identical(mt.Key(), types.Typ[types.String]) && types.Identical(mt.Elem(), types.Typ[types.String]) {
+							m = a
+						}
+					}
+					if m == nil {
+						continue
+					}
+					n++
+					lenOf := VP{"len(attributes)", func(v ssa.Value) bool {
+						cc, ok := prog.Strip(v).(*ssa.Call)
+						if !ok {
+							return false
+						}
+						bi, ok := cc.Call.Value.(*ssa.Builtin)
+						return ok && bi.Name() == "len" && prog.Strip(cc.Call.Args[0]) == prog.Strip(m)
+					}}
+					zero := VP{"0", func(v ssa.Value) bool { k, ok := prog.IntConst(v); return ok && k == 0 }}
+					x.guardedSite(fmt.Sprintf("func=%s model-style-call attributes-non-empty", prog.FnName(fn)), c, []Cmp{{L: lenOf, R: zero, Want: GT}, {L: lenOf, R: zero, Want: NE}}, nil)
+				}
+			}
+			if n < 3 {
+				x.C.Vacuous(x.id()+" style calls of the proxies", n, 3)
+			}
+		}})
+
 	register(&Rule{ID: "PATH.miss", Min: 1, Text: "a path that cannot be walked yields nothing: in package schema, where a loop narrows the walked value with a comma-ok type assertion (getValueByPath: current.(*crdt.Object) per path component), the failing edge leads only to returns whose value is not the partially walked value — a walk that stops at a component which is not an object and returns what it has reached hands the validator the wrong node ($.a.b validated against the primitive at $.a), so a document that breaks the schema is accepted (or a valid one refused) and Update's schema gate no longer means what the schema says",
 		Run: func(x *Ctx) {
 			n := 0
